@@ -144,13 +144,15 @@ def gen_node(rng, ids, name, depth, o):
             xs[x] = rng.choice(["", "1"])
     if rng.random() < o["p_counters"]:
         for x in rng.sample(["trusted.oomd_kill", "user.oomd_kill", "trusted.oomd_ooms", "user.oomd_ooms"], rng.randint(1, 3)):
-            xs[x] = str(rng.choice([0, 1, 7, 41, 1000]))
+            xs[x] = rng.choice(["0", "1", "7", "41", "1000", "007", " 12", "+5", "-3", "12abc", ""])
     if rng.random() < o["p_nonint"]:
         for x in rng.sample(["trusted.oomd_kill", "user.oomd_kill", "trusted.oomd_ooms", "user.oomd_ooms"], 1):
             xs[x] = rng.choice(["abc", "x1", "-", "99999999999", " ", "0x"])
     n["xattrs"] = xs
-    if rng.random() < 0.05:
-        n["_missing"] = rng.sample(["cgroup.kill", "cgroup.freeze"], 1)
+    if rng.random() < 0.06:
+        n["_missing"] = rng.sample(["cgroup.kill", "cgroup.freeze", "cgroup.procs"], 1)
+        if "cgroup.procs" in n["_missing"]:
+            n["procs"] = []
     return n
 
 
@@ -284,6 +286,8 @@ def mutate_tick(rng, ids, tree, plugin, args, static_structure):
                 delta["write"][rel + "/cgroup.events"] = "populated %d\nfrozen 0\n" % n["sem"]["populated"]
         elif r < 0.75:
             x = rng.choice(["trusted.oomd_prefer", "user.oomd_avoid", "trusted.oomd_avoid"])
+            if any(d["path"] == rel and d["name"] == x for d in delta["setx"] + delta["rmx"]):
+                continue        # one change per attribute and tick (the harness applies all setx before all rmx)
             if x in n["xattrs"]:
                 del n["xattrs"][x]
                 delta["rmx"].append({"path": rel, "name": x})
@@ -399,7 +403,7 @@ def gen_one(rng, tier, prop, stream):
     return sc
 
 
-BUDGET = {"quick": 1200, "thorough": 30000, "search": 4000}
+BUDGET = {"quick": 3000, "thorough": 24000, "search": 6000}
 
 
 def gen(rng, tier, prop, streams):
